@@ -453,6 +453,12 @@ def write_evidence(ctx, cov, violations, extra_assumptions=()):
 
 
 def standard_check(prop, tier, seed, replay=None):
+    # two runs of the same property share out/<id>/: serialise them
+    with Lock("check_" + prop.id):
+        return _standard_check(prop, tier, seed, replay)
+
+
+def _standard_check(prop, tier, seed, replay=None):
     ctx = Ctx(prop, tier, seed)
     os.makedirs(ctx.out, exist_ok=True)
     violations = []      # (line, ) printed at the end
